@@ -3,7 +3,7 @@
 use super::histprop::HistProp;
 use crate::hist::{Act, Effect, Interp, Monitor, Obs, Step};
 use crate::ops::{CfgProfile, Weights};
-use crate::oracle::{flow, liq_ratio, pos_ref, PosRef};
+use crate::oracle::{flow, liq_ratio, pos_ref_m, PosRef};
 use crate::refmath::{fee, pnl, S};
 use crate::run::{Outcome, Violation};
 use crate::world::{mul_div_floor, World};
@@ -18,7 +18,7 @@ pub struct LiqPre {
 }
 
 pub fn liq_pre(w: &World, pre: &Obs, v: usize, t: usize) -> Option<LiqPre> {
-    let pr = pos_ref(w, pre, v, t)?;
+    let pr = pos_ref_m(w, pre, v, t)?;
     let ratio = liq_ratio(w, pre, v, &pr);
     let choices_differ = match (pr.pnl_spot(), pr.pnl_twap()) {
         (Some(a), Some(b)) => a != b,
@@ -179,7 +179,7 @@ impl Monitor for Mon06 {
 pub fn liq_weights() -> Weights {
     let mut w = Weights::trading();
     w.open = 24;
-    w.close = 4;
+    w.close = 9;
     w.deposit = 3;
     w.withdraw = 5;
     w.liquidate = 5;
@@ -196,7 +196,8 @@ pub fn liq_weights() -> Weights {
 
 pub fn prop06() -> HistProp {
     let mut p = CfgProfile::general();
-    p.fluct = false;
+    // 4 in 9 vAMMs have a per-block band (partial closes happen there)
+    p.fluct = true;
     HistProp {
         id: "C06",
         level: "exploration",
@@ -216,6 +217,8 @@ pub fn prop06() -> HistProp {
 
 #[derive(Default)]
 pub struct Mon07 {
+    /// spot price of each vAMM at the first moment of the current block (= end of the previous block)
+    pref: Vec<u128>,
     lp: Option<LiqPre>,
     qualifies: bool,
     nontrivial_hits: u64,
@@ -242,6 +245,9 @@ fn err_class(e: &str) -> &'static str {
 }
 
 impl Monitor for Mon07 {
+    fn begin(&mut self, w: &mut World, _out: &mut Outcome) {
+        self.pref = (0..w.vamms.len()).map(|v| w.spot(v)).collect();
+    }
     fn before(&mut self, it: &mut Interp, act: &Act, pre: &Obs, out: &mut Outcome) -> Option<Violation> {
         self.lp = None;
         self.qualifies = false;
@@ -264,7 +270,22 @@ impl Monitor for Mon07 {
             ok &= pass(*limit == 0, "limit_nonzero", out, &mut why);
             ok &= pass(lp.ratio.as_ref().map(|r| r.0.lt(&maint)).unwrap_or(false), "not_below_maintenance", out, &mut why);
             ok &= pass(pre.v[*v].state.open && pre.v[*v].registered, "closed_or_unregistered", out, &mut why);
-            ok &= pass(pre.v[*v].cfg.fluctuation_limit_ratio.is_zero(), "band_configured", out, &mut why);
+            // "not already outside its per-block band": spot within [p(1-l), p(1+l)] of the previous block's final price, edges included
+            let l = pre.v[*v].cfg.fluctuation_limit_ratio.u128();
+            if l != 0 {
+                let p0 = self.pref.get(*v).copied().unwrap_or(0);
+                let lo = mul_div_floor(p0, d.saturating_sub(l), d) + if (cosmwasm_std::Uint256::from(p0) * cosmwasm_std::Uint256::from(d.saturating_sub(l))) % cosmwasm_std::Uint256::from(d) == cosmwasm_std::Uint256::zero() { 0 } else { 1 };
+                let hi = mul_div_floor(p0, d + l, d);
+                let spot = pre.v[*v].spot;
+                let inside = spot >= lo && spot <= hi;
+                ok &= pass(inside, "outside_band", out, &mut why);
+                if inside && ok {
+                    out.count("qualifying.band_configured");
+                    if spot == lo || spot == hi {
+                        out.count("qualifying.exactly_on_band_edge");
+                    }
+                }
+            }
             ok &= pass(!pre.ecfg.liquidation_fee.is_zero(), "zero_fee_ratio", out, &mut why);
             let frac = pre.ecfg.partial_liquidation_ratio.u128();
             let q_full = pr.n_spot;
@@ -286,6 +307,9 @@ impl Monitor for Mon07 {
         None
     }
     fn after(&mut self, w: &World, s: &Step, out: &mut Outcome) -> Option<Violation> {
+        if let Act::NextBlock { .. } = s.act {
+            self.pref = s.post.v.iter().map(|v| v.spot).collect();
+        }
         let (v, target) = match s.act {
             Act::Liquidate { v, target, .. } => (*v, *target),
             _ => return None,
@@ -384,19 +408,21 @@ impl Monitor for Mon07 {
 
 pub fn prop07() -> HistProp {
     let mut p = CfgProfile::general();
-    p.fluct = false;
+    p.fluct = true;
     p.real_feed = None;
+    let mut wts = liq_weights();
+    wts.edge = 5;
     HistProp {
         id: "C07",
         level: "exploration",
         profile: p,
-        weights: liq_weights(),
+        weights: wts,
         min_ops: 6,
         max_ops: (40, 100),
         cases: (12_000, 400_000),
         make: || Box::new(Mon07::default()),
-        rule: "histories as in C06 with emphasis on deeply negative equity, vaults drained by profitable closes, every partial-liquidation ratio, small and large insurance fund. One-step liveness: if in the pre-state the recomputed liquidation ratio r < maintenance (strict), the vAMM is open and registered, OutputAmount answers for the whole (and, when a partial ratio is set, the partial) size, no price band is configured, the liquidation fee ratio is non-zero and the fund's balance exceeds M + |PnL| + |F| + Q, then Liquidate{quote_asset_limit: 0} by the generated caller must succeed. Attempts with a false precondition are counted as such, not as passes. Non-trivial: a qualifying attempt with r < 0, or vault balance below the remaining margin, or a partial ratio set. Distinct by digest of (cfg, ops).",
-        assumptions: &["deployments of this check have no fluctuation limit, so 'not already outside the per-block band' holds by construction", "the fund bound M + |PnL| + |F| + Q is conservative (sufficient, not necessary)"],
+        rule: "histories as in C06 with emphasis on deeply negative equity, vaults drained by profitable closes, every partial-liquidation ratio, small and large insurance fund. One-step liveness: if in the pre-state the recomputed liquidation ratio r < maintenance (strict), the vAMM is open and registered, OutputAmount answers for the whole (and, when a partial ratio is set, the partial) size, the spot price lies within [p(1-l), p(1+l)] of the previous block's final price p when a band l is configured (edges included; 4 in 9 vAMMs have a band, and whale orders sized to land exactly on the edge are generated), the liquidation fee ratio is non-zero and the fund's balance exceeds M + |PnL| + |F| + Q, then Liquidate{quote_asset_limit: 0} by the generated caller must succeed. Attempts with a false precondition are counted as such, not as passes. Non-trivial: a qualifying attempt with r < 0, or vault balance below the remaining margin, or a partial ratio set. Distinct by digest of (cfg, ops).",
+        assumptions: &["the previous block's final price is recorded by the harness at every block boundary", "the fund bound M + |PnL| + |F| + Q is conservative (sufficient, not necessary)"],
         eval_counter: None,
     }
 }
